@@ -201,7 +201,8 @@ def main(tier, seed, collect=None):
     missing = [r for r in RUNTIMES if r not in avail]
     for m in missing:
         total.notes["runtime %s is not installed: reduced coverage" % m] += 1
-    hosts = ["py312"] if tier == "quick" else [h for h in ("py310", "py311", "py312", "py313") if h in avail]
+    # converter hosts: the oldest interpreter the converter itself runs on and the pinned one (quick); all four (thorough)
+    hosts = [h for h in (("py310", "py312") if tier == "quick" else ("py310", "py311", "py312", "py313")) if h in avail]
     progs = list(programs(tier))
     total.c["programs_generated"] = len(progs)
     chunks = list(core.chunked(progs, max(50, len(progs) // 48)))
